@@ -412,11 +412,15 @@ def main(argv):
             violations.append((path, " no-failing-input-found"))
             bad = []
         seen_min = set()
-        for (c, hs, io, mo) in bad[:25]:
+        unexplained = 0
+        for (c, hs, io, mo) in bad:
             cl0 = prop.classify(c, io, mo)
             if cl0 is not None and cl0 in findings:
                 # explained by a recorded defect: no need to minimise it again
                 known_hit.setdefault(cl0, prop.describe(c, mo))
+                continue
+            unexplained += 1
+            if unexplained > 25:
                 continue
             small = c if args.replay else shrink(prop, c, hs, case_timeout)
             if small is not c:
@@ -438,8 +442,8 @@ def main(argv):
                                       "describe": prop.describe(small, mo),
                                       "replay_cmd": "./check %s --replay <this file>" % pid})
             violations.append((path, ""))
-        if len(bad) > 25:
-            log("(%d further disagreements not minimised)" % (len(bad) - 25))
+        if unexplained > 25:
+            log("(%d further disagreements not minimised)" % (unexplained - 25))
     elif not args.replay and not violations:
         path = write_replay(pid, {"property": pid, "kind": "correspondence-not-evaluable", "error": "no driver or no cases"})
         violations.append((path, " no-failing-input-found"))
